@@ -13,7 +13,7 @@ BASE = 'MC_ObjTree'
 
 I1 = interface.DBusInterface('org.verif.I1', interface.Method('Ping1', returns='s'),
                              interface.Property('p1', 'i'), noRegister=True)
-I2 = interface.DBusInterface('org.verif.I2', interface.Property('q', 's'), interface.Property('w', 'u', readable=False, writeable=True),
+I2 = interface.DBusInterface('org.verif.I2', interface.Method('Ping2', returns='s'), interface.Property('q', 's'), interface.Property('w', 'u', readable=False, writeable=True),
                              noRegister=True)
 
 
@@ -38,6 +38,9 @@ class K2(K1):
         K1.__init__(self, path)
         self.q = 'qq'
         self.w = 3
+
+    def dbus_Ping2(self):
+        return 'pong2'
 
 
 CLS = {'K1': K1, 'K2': K2}
@@ -78,6 +81,10 @@ class TreeDriver:
         self.serial = 50
         self.last_sig = {'kind': 'none', 'path': (), 'cls': '-'}
         self.made = {}          # (path, class) -> instance: the application exports the same instance again
+        # a second connection of the same process, on which every other object is exported as well (afterwards)
+        self.conn_b = Conn()
+        self.h_b = objects.DBusObjectHandler(self.conn_b)
+        self.on_b = set()
 
     def apply(self, name, args):
         del self.conn.sent[:]
@@ -86,8 +93,14 @@ class TreeDriver:
             if key not in self.made:
                 self.made[key] = CLS[args[1]](pstr(args[0]))
             self.h.exportObject(self.made[key])
+            if (len(args[0]) + len(self.made)) % 2 == 0:
+                self.h_b.exportObject(self.made[key])
+                self.on_b.add(args[0])
         else:
             self.h.unexportObject(pstr(args[0]))
+            if args[0] in self.on_b:
+                self.on_b.discard(args[0])
+                self.h_b.unexportObject(pstr(args[0]))
         sigs = [m for m in self.conn.sent]
         if len(sigs) != 1 or sigs[0]._messageType != 4:
             self.last_sig = {'kind': 'unexpected %d messages' % len(sigs), 'path': (), 'cls': '-'}
@@ -129,6 +142,12 @@ class TreeDriver:
                 names = set(re.findall(r'<interface name="([^"]*)"', xml)) - {
                     'org.freedesktop.DBus.Introspectable', 'org.freedesktop.DBus.Peer', 'org.freedesktop.DBus.ObjectManager'}
                 own = '-' if not names else ([k for k, e in EXPECT.items() if set(e) == names] or ['?' + repr(sorted(names))])[0]
+                # what Introspect announces is what answers: members of the class exported there now, and no others
+                for member, iface, classes in (('Ping1', 'org.verif.I1', ('K1', 'K2')), ('Ping2', 'org.verif.I2', ('K2',))):
+                    c2, out2 = self.call(qs, iface, member)
+                    answers = len(out2) == 1 and out2[0]._messageType == 2 and out2[0].reply_serial == c2.serial
+                    if answers != (own in classes):
+                        own = '?%s but %s %s' % (own, member, 'answers' if answers else 'does not answer')
                 intro = {'ok': True, 'own': own, 'children': kids}
             # GetManagedObjects
             c, out = self.call(qs, 'org.freedesktop.DBus.ObjectManager', 'GetManagedObjects')
